@@ -187,7 +187,16 @@ class WriterHist(Engine):
                             "i": ro.randint(0, 5), "j": ro.randint(0, 2)})
             else:
                 ops.append({"op": "item_named", "name": ro.choice(cand[:12] + ["at_", "loc_0", "x_0", "?x", "?x_0", "nope"]).lower()})
-        return {"engine": self.name, "world": world, "ops": ops}
+        script = {"engine": self.name, "world": world, "ops": ops}
+        if rw.random() < 0.3:
+            # another writer used EARLIER in the same process, on a problem of a poorer dialect that shares the names
+            # (no durative action, no trajectory constraint): what one writer did must not leak into the next
+            w0 = _json.loads(_json.dumps(world))
+            for a in w0["actions"]:
+                a["durative"] = False
+            w0["traj"] = False
+            script["prelude"] = {"world": w0, "calls": rw.sample(["get_domain", "get_problem", "get_plan"], rw.randint(1, 3))}
+        return script
 
     # ------------------------------------------------------------------ execute
     def build(self, world):
@@ -302,6 +311,23 @@ class WriterHist(Engine):
             pw.GENERAL_PDDL_KEYWORDS.update(GENERAL)
 
     def _run(self, script, world, ctx):
+        pre = script.get("prelude")
+        if pre:
+            try:
+                env0, p0, _, objs0, _, acts0, _ = self.build(pre["world"])
+                w0 = PDDLWriter(p0)
+                for c in pre.get("calls", []):
+                    if c == "get_domain":
+                        w0.get_domain()
+                    elif c == "get_problem":
+                        w0.get_problem()
+                    elif c == "get_plan":
+                        w0.get_plan(self.make_plan(p0, acts0, objs0))
+                ctx.probe("earlier-writer-in-the-same-process")
+            except BuildError:
+                raise
+            except Exception as ex:
+                ctx.ev("prelude", type(ex).__name__)
         try:
             env, p, types, objs, fls, acts, variables = self.build(world)
         except BuildError:
